@@ -22,10 +22,10 @@ MANIFEST = dict(
     text="Sharding.tla models one ShardedSession over 2-3 databases with the three chooser functions and the initial data set as constant tables "
          "(profiles: hand-made corner cases - same primary key in several shards, choosers that select shards without matching rows or miss "
          "shards, reversed merge order, empty identity chooser, rows living in a shard other than shard_chooser's - plus seeded random tables). "
-         "TLC enumerates every history of add/flush/commit/rollback/query(all, filter, explicit shard)/get/modify/delete/expunge_all up to depth "
+         "TLC enumerates every history of add/flush/commit/rollback/query(all, filter, explicit shard)/get (plain, with identity_token, with a bind/option shard id)/merge of a detached edited copy/modify/delete/expunge_all up to depth "
          "5-7 per profile and checks: rows written by a flush live exactly in the shard shard_chooser selected, UPDATE/DELETE/commit/rollback "
          "change only what they must, a query returns exactly (as a bag, in merge order) the matching rows of the shards execute_chooser "
-         "selects, identity keys carry the shard the row lives in, Session.get consults identity_chooser's shards in order before any database. "
+         "selects, identity keys carry the shard the row lives in, Session.get consults identity_chooser's shards in order before any database, an object addressed with its shard (get(identity_token=), merge()) is that shard's object and a flush writes each shard only for objects of that shard. "
          "Every edge is replayed on a real ShardedSession over SQLite files comparing, after each step, the call outcome, which file holds which "
          "row (raw sqlite3), what the session's transaction sees per shard, the identity map's (pk, identity_token) keys, Python object "
          "identity per key, and attribute values.",
@@ -38,8 +38,8 @@ MANIFEST = dict(
               "ShardedSession over SQLite files")
 
 INVS = ["RowsWhereChosen", "RowOnce", "PkUniquePerShard", "KeysAreHome"]
-PROPS = ["WritesOnlyByFlush", "QueryIsUnion", "GetOrder"]
-FOOTPRINT = ["Add", "Flush", "Commit", "Rollback", "Expunge", "Modify", "Delete", "QueryAll", "QueryGrp", "QueryShard", "Get"]
+PROPS = ["WritesOnlyByFlush", "QueryIsUnion", "GetOrder", "TokenHonoured", "FlushWritesHome"]
+FOOTPRINT = ["Add", "Flush", "Commit", "Rollback", "Expunge", "Modify", "Delete", "QueryAll", "QueryGrp", "QueryShard", "Get", "GetTok", "GetBind", "Merge"]
 
 
 def row(pk, g, v=0):
@@ -136,7 +136,12 @@ def run_family(chk, rng, label, profiles, ns, ng, depth, out, dump=True, workers
     for fk, act, tk in g.edges:
         cov[act["a"]] = cov.get(act["a"], 0) + 1
         st = g.states[fk]["st"]
-        if act["a"].startswith("Query") or act["a"] == "Get":
+        if act["a"] in ("GetTok", "Merge"):
+            # the explicit token matters: a same-primary-key object of ANOTHER shard is in the identity map, the addressed one is not
+            im = {tuple(k) for k in st["im"]}
+            if (act["x"], act["y"]) not in im and any(k[0] == act["x"] and k[1] != act["y"] for k in im):
+                out["collide_" + act["a"]] = out.get("collide_" + act["a"], 0) + 1
+        if act["a"].startswith("Query") or act["a"] in ("Get", "GetTok", "GetBind", "Merge"):
             # the answer depends on the choosers: rows exist in more than one shard, or the same primary key in two shards
             if sum(1 for rows in st["work"] if rows) > 1:
                 nontriv += 1
@@ -195,12 +200,16 @@ def main(chk):
             chk.machinery("vacuous: no edge with action %s" % a)
     if not out["samepk"]:
         chk.machinery("vacuous: no query returned the same primary key from two shards")
+    for a in ("GetTok", "Merge"):
+        if not out.get("collide_" + a):
+            chk.machinery("vacuous: no %s edge addresses a shard while only the same primary key's object of another shard is loaded" % a)
     if not out["multi"]:
         chk.machinery("vacuous: no Get met the same primary key in two of execute_chooser's shards")
     return chk.finish(
         dict(states=out["states"], transitions=out["trans"], traces_validated_against_impl=out["walks"], evaluations=out["steps"],
              graph_edges=out["edges"], distinct_nontrivial=out["nontriv"], same_pk_from_two_shards_results=out["samepk"],
-             get_multiple_results_edges=out["multi"], action_coverage=cov, tlc_runs=out["runs"], samples=out["samples"], exhaustive=True,
+             get_multiple_results_edges=out["multi"], token_collision_gettok_edges=out.get("collide_GetTok", 0),
+             token_collision_merge_edges=out.get("collide_Merge", 0), action_coverage=cov, tlc_runs=out["runs"], samples=out["samples"], exhaustive=True,
              rule="every labelled edge (one session operation in one state of one chooser/data-set profile) replayed on a real ShardedSession; "
                   "non-trivial = a query/get issued while rows exist in more than one shard, or a flush/commit that writes",
              checker_cmd="tlc Sharding.tla (VIEW View, ACTION_CONSTRAINT Emit, CONSTRAINT Depth; profiles via IOEnv.SHARD_PROFILES)"),
